@@ -49,6 +49,7 @@ class BatchSpec(SeqSpec):
         item = 1
         k = 0
         started = []
+        pending = []
         cancelled = set()
         ended = False
         closed = False
@@ -87,10 +88,19 @@ class BatchSpec(SeqSpec):
                 ops.append(["release", "end"] if ending == "end" else ["release", "err", 7])
                 ended = True
             elif a == "next":
+                # at most 1 (sequential) or 2 consumer calls can be pending at a time: the state space of
+                # the matcher is the product over the pending calls; older ones are expired first
+                while len(pending) >= (1 if sequential else 2):
+                    c = pending.pop(0)
+                    if c not in cancelled:
+                        ops.append(["cancel", c])
+                        cancelled.add(c)
+                    ops.append(["quiesce"])
                 if sequential and ops and ops[-1] != ["quiesce"]:
                     ops.append(["quiesce"])
                 ops.append(["next", k, k])
                 started.append(k)
+                pending.append(k)
                 k += 1
             elif a == "cancel":
                 c = rng.choice([c for c in started if c not in cancelled])
